@@ -1,7 +1,7 @@
 """C10 (selection-set level) — the selected map of selection.rs vs. set semantics on (run, index) keys."""
 ID = "C10"
 SUBMODULES = ["c10s"]          # session-level stream: real Model sessions, see c10s.py / session.py
-EXTRA_PROPS = ["C10Session", "SelOpsTables"]   # session-level theorems; the four selection actions as TRANSLATED from src/selection.rs = the model
+EXTRA_PROPS = ["C10Session", "SelOpsTables", "C10Translated"]   # session-level theorems; the four selection actions as TRANSLATED from src/selection.rs = the model
 N_QUICK, N_THOROUGH = 6000, 300000
 RULE = ("random selection histories (<= 80 ops) over run changes (4 command strings incl. the empty one), clear, batches of "
         "matched items (unique text per (run, index), unique ranks, sorted / --no-sort / --tac lists, optional "
